@@ -228,7 +228,7 @@ def run_check(pid, tier, seed, replay=None):
             os.makedirs(sd)
             env = goenv()
             env.setdefault("GOGC", "off")
-            env.setdefault("GOMEMLIMIT", "2GiB")
+            env.setdefault("GOMEMLIMIT", "1GiB")
             env.update(VERIF_OUT=fragdir, VERIF_TIER=tier, VERIF_SHARD=str(k), VERIF_NSHARDS=str(shards),
                        VERIF_BIN=work, VERIF_SEED=str(seed), VERIF_KF=os.path.join(HERE, "known_findings.json"),
                        VERIF_SCRATCH=os.path.join(work, "s%d" % k, "data"), VERIF_REPO=REPO,
